@@ -38,6 +38,7 @@ ASSUMPTIONS = [
 ]
 REQUIRED_CLASSES = {'all': ['decrypted', 'rejected']}
 QUICK_VALIDATE = 3
+QTIMEOUT_MS = {'quick': 30000, 'thorough': 60000}
 
 ALTER = ['none', 'ciphertext-octet', 'lifetime', 'timestamp', 'destination', 'target-flags', 'sec-source', 'aad-scope',
          'protected-header', 'iv', 'wrong-key', 'unrelated-block', 'bcb-block-flags']
@@ -53,6 +54,9 @@ def cases(tier):
                 if n != 4 and alt not in ('none', 'ciphertext-octet', 'lifetime', 'wrong-key'):
                     continue
                 out.append(dict(mode=mode, alter=alt, n=n))
+        # one BCB over two targets (payload and an extension block): a failure of either target fails the bundle
+        for alt in ('none', 'ciphertext-octet', 'second-ciphertext-octet', 'lifetime'):
+            out.append(dict(mode=mode, alter=alt, n=4, targets=2))
     return out
 
 
@@ -62,10 +66,11 @@ def keys(mode):
     if mode == 'direct':
         k = SymmetricKey(k=bytes(range(32)), optional_params={'ALG': algorithms.A256GCM, 'KID': b'enckey',
                                                               'KEY_OPS': [keyops.EncryptOp, keyops.DecryptOp]})
-        return k, dict(content_iv=[bytes(range(200, 212))])
+        return k, dict(content_iv=[bytes(range(200, 212)), bytes(range(212, 224))])
     k = SymmetricKey(k=bytes(range(16, 48)), optional_params={'ALG': algorithms.A256KW, 'KID': b'kek',
                                                               'KEY_OPS': [keyops.WrapOp, keyops.UnwrapOp]})
-    return k, dict(content_alg=algorithms.A256GCM, content_key=bytes(range(100, 132)), content_iv=[bytes(range(200, 212))])
+    return k, dict(content_alg=algorithms.A256GCM, content_key=bytes(range(100, 132)),
+                   content_iv=[bytes(range(200, 212)), bytes(range(212, 224))])
 
 
 def configure(w, mode, wrong=False):
@@ -105,7 +110,8 @@ def harness(case, tier):
     s = BpWorld(node_id='dtn://src/', ctr_cap=8)
     s.add_tx_route('.*', mtu=None)
     ctx, key, extra = configure(s, case['mode'])
-    ctx.sec_assoc.append(SecAssociation(src_pat=re.compile('.*'), dst_pat=re.compile('.*'), tgt_blk_types=[1],
+    ctx.sec_assoc.append(SecAssociation(src_pat=re.compile('.*'), dst_pat=re.compile('.*'),
+                                        tgt_blk_types=[1, 192] if case.get('targets') == 2 else [1],
                                         templates=[SecOperation(sec_type='bcb', role='source', priv_key_id=key.kid, **extra)]))
     data = c.sym_bytes('plain', n) if n else b''
     life = c.sym_int('lifetime', 2 ** 32, 2 ** 40)
@@ -113,7 +119,8 @@ def harness(case, tier):
     ctr = BundleContainer()
     ctr.bundle.primary = PrimaryBlock(bundle_flags=0, destination='dtn://dst/app', source='dtn://src/app', report_to='dtn:none',
                                       create_ts=Timestamp(dtntime=ts, seqno=3), lifetime=life, crc_type=2)
-    ctr.bundle.blocks = [CanonicalBlock(type_code=192, block_num=4, crc_type=0, btsd=c.sym_bytes('other', 2)),
+    other = c.sym_bytes('plain_other' if case.get('targets') == 2 else 'other', 2)
+    ctr.bundle.blocks = [CanonicalBlock(type_code=192, block_num=4, crc_type=0, btsd=other),
                          CanonicalBlock(type_code=1, block_num=1, crc_type=2, btsd=data)]
     err = s.send(ctr)
     c.prove(err is None and len(s.sent) == 1, 'source-sends-protected-bundle', detail=dict(err=repr(err), n=len(s.sent)))
@@ -128,23 +135,31 @@ def harness(case, tier):
 
     # ---------------- what is on the wire
     pay_wire = [x for x in b['blocks'] if bool(x['type'] == 1)][0]
+    oth_wire = [x for x in b['blocks'] if bool(x['type'] == 192)][0]
     issued = [e for e in idealcose._entries() if e['kind'] == 'enc']
-    c.prove(len(issued) == 1, 'one-content-encryption', detail=len(issued))
-    if issued:
-        c.prove(same_bytes(pay_wire['data'], issued[0]['token']), 'wire-target-data-is-the-ciphertext', detail=dict(got=pay_wire['data']))
-        c.prove(same_bytes(issued[0]['data'], data), 'ciphertext-is-of-the-original-plaintext', detail=dict(got=issued[0]['data']))
-    if n:
-        c.prove(not same_bytes(pay_wire['data'], data), 'wire-target-data-is-not-the-plaintext')
-    # the additional authenticated data, constructed independently from the transmitted bundle
     sb = rfc9171.read_secblock(bcbs[0]['data'])
     scope = dict((int(k), int(v)) for (k, v) in dict((int(k), v) for (k, v) in sb['params'])[5].items())
-    msg = symcbor.loads(sb['results'][0][0][1])
-    aad = rfc9171.bpsec_cose_aad(b, sb['source'], scope, pay_wire)
-    want = rfc9171.enc(['Encrypt0' if case['mode'] == 'direct' else 'Encrypt', msg[0], aad])
-    if issued:
-        c.prove(same_bytes(issued[0]['aad'], want), 'authenticated-octets-equal-independent-construction',
-                detail=dict(got=issued[0]['aad'], want=want))
-    c.prove(msg[2] is None, 'ciphertext-detached-from-message', detail=repr(msg[2]))
+    expect = [(pay_wire, data)] + ([(oth_wire, other)] if case.get('targets') == 2 else [])     # block number order
+    c.prove(len(issued) == len(expect) and len(sb['targets']) == len(expect), 'one-content-encryption-per-target',
+            detail=dict(issued=len(issued), targets=sb['targets']))
+    for ix, (blk, plain) in enumerate(expect):
+        c.prove(bool(sb['targets'][ix] == blk['num']) if ix < len(sb['targets']) else False, 'targets-in-block-number-order')
+        if ix < len(issued):
+            c.prove(same_bytes(blk['data'], issued[ix]['token']), 'wire-target-data-is-the-ciphertext', detail=dict(got=blk['data']))
+            c.prove(same_bytes(issued[ix]['data'], plain), 'ciphertext-is-of-the-original-plaintext', detail=dict(got=issued[ix]['data']))
+        if blen(plain) != 0:
+            c.prove(not same_bytes(blk['data'], plain), 'wire-target-data-is-not-the-plaintext')
+        # the additional authenticated data, constructed independently from the transmitted bundle
+        msg = symcbor.loads(sb['results'][ix][0][1])
+        aad = rfc9171.bpsec_cose_aad(b, sb['source'], scope, blk)
+        want = rfc9171.enc(['Encrypt0' if case['mode'] == 'direct' else 'Encrypt', msg[0], aad])
+        if ix < len(issued):
+            c.prove(same_bytes(issued[ix]['aad'], want), 'authenticated-octets-equal-independent-construction',
+                    detail=dict(got=issued[ix]['aad'], want=want))
+        c.prove(msg[2] is None, 'ciphertext-detached-from-message', detail=repr(msg[2]))
+    if len(issued) == 2:
+        c.prove(issued[0]['nonce'] != issued[1]['nonce'] or issued[0]['key'] != issued[1]['key'], 'no-nonce-reuse-under-one-key',
+                detail=[e['nonce'].hex() for e in issued])
     # no transmitted octet is a function of a plaintext variable
     names = set()
     wbuf = SBuf.of(wire)
@@ -177,6 +192,11 @@ def harness(case, tier):
         i = c.choose(min(len(items), 6), 'octet')
         items[i] = other_value('newoctet', items[i], 0, 255)
         pay['data'] = SBuf.mk([Lit(items)])
+    elif alt == 'second-ciphertext-octet':
+        items = list(bytes(oth['data'])) if not isinstance(oth['data'], SBuf) else list(SBuf.of(oth['data'])[0].items)
+        i = c.choose(min(len(items), 6), 'octet')
+        items[i] = other_value('newoctet', items[i], 0, 255)
+        oth['data'] = SBuf.mk([Lit(items)])
     elif alt == 'lifetime':
         pri['lifetime'] = other_value('newlife', life, 2 ** 32, 2 ** 40)
     elif alt == 'timestamp':
@@ -217,6 +237,9 @@ def harness(case, tier):
     if delivered == 1:
         got = r.delivered[0].block_num(1).getfieldval('btsd')
         c.prove(same_bytes(got, data), 'decrypted-plaintext-is-original', detail=dict(got=got))
+        if case.get('targets') == 2:
+            got = r.delivered[0].block_num(4).getfieldval('btsd')
+            c.prove(same_bytes(got, other), 'decrypted-plaintext-is-original[second target]', detail=dict(got=got))
     return {'class': 'decrypted'}
 
 
